@@ -8,6 +8,7 @@ import DtailModel.Lemmas.Fast
 import DtailModel.Lemmas.GlobID
 import DtailModel.Lemmas.GenGlobID
 import DtailModel.Lemmas.GenPlain
+set_option autoImplicit false
 namespace Dtail.C07
 open Dtail
 
